@@ -37,7 +37,8 @@ def _random(x, numblocks=None, root_seed=None, dtype=nxp.float64, block_id=None)
     from numpy.random import Generator, Philox
 
     stream_id = block_id_to_offset(block_id, numblocks)
-    rg = Generator(Philox(key=root_seed + stream_id))
+    # root_seed is any 128-bit value, so wrap around to stay within Philox's 128-bit key range
+    rg = Generator(Philox(key=(root_seed + stream_id) % 2**128))
     out = rg.random(x.shape, dtype=dtype)
     out = numpy_array_to_backend_array(out)
     return out
